@@ -367,6 +367,18 @@ theorem interleaved_states_are_reachable {env : Env} {s0 : State} (h : Reachable
   rw [interleaving_is_serial_history]
   exact serial_preserves_reachable _ h
 
+/-- **every answer is an answer of the serial history.** In any interleaving, whatever any
+    thread was told is what the atomic model answers in a state of that one serial history:
+    a direct request in the state after some prefix; an /id/ request resolved against the index
+    after one prefix and handled in the state after a later one. No request ever observes an
+    intermediate state of another — in particular none sees the tree of a write that ends up
+    rejected while it is being run and rolled back (what the `peek` op samples on the real
+    handler), and a GET's body and ETag come from the same state. -/
+theorem every_answer_is_an_answer_of_the_serial_history (env : Env) (s0 : State) (sched : List (Nat × Req)) :
+    ∀ e ∈ (regionRun env sched (RSys.start s0)).done,
+      Explained env s0 (regionRun env sched (RSys.start s0)).hist e :=
+  (rinv_run sched _ (rinv_start env s0)).answers
+
 /-- run back to back, the two regions of an /id/ request are the atomic request `serve` models -/
 theorem id_request_back_to_back_is_atomic (env : Env) (y : RSys) (c : Nat) (r r' : Req)
     (hidle : y.pend c = .idle) (hid : route r.path = .id) :
@@ -948,5 +960,12 @@ example : mapEq (.obj [([97], .null), ([98], .bool true)]) (.obj [([98], .bool t
 example : canonical (.obj [([97], .null), ([98], .bool true)]) = true ∧ canonical (.obj [([98], .bool true), ([97], .null)]) = false := by decide
 example : canonical exDoc = true := by decide
 example : ReachableCN exEnv exLoaded := .step _ (by show canonical exDoc = true; decide) .init
+
+-- every_answer_…: in the race above, thread 1's insert was answered in the state after 0 requests of the
+-- serial history, thread 0's patch was resolved there too but handled after 1
+example : Explained raceEnv raceLoaded [insertY, { patchX [] with path := pA0 }] (1, insertY, .okWrite) :=
+  Or.inl ⟨0, by decide, by decide⟩
+example : Explained raceEnv raceLoaded [insertY, { patchX [] with path := pA0 }] (0, patchX [], .okWrite) :=
+  Or.inr ⟨0, 1, by decide, by decide, by decide⟩
 
 end CaddyModel.C12
